@@ -6,8 +6,10 @@
 #    raise VIOLATION, and undoes it (git -C /repo checkout -- .).
 set -u
 if [ "${1:-}" = "--cleanup" ]; then git -C /repo worktree remove --force /tmp/wt/verify; rm -f /tmp/wt/verify-*.patch; exit 0; fi
+ONLY=0; if [ "${1:-}" = "--checks-only" ]; then ONLY=1; shift; fi
 id="$1"; src="$2"; shift 2
 checks="${*:-C01 C02 C03 C04 C05 C06 C07 C08 C09 C10 C11 C12 C13 C14 C15 C16 C17 C18 C19 C20}"
+if [ $ONLY -eq 1 ]; then cp "$src/patch.diff" /tmp/wt/verify-$id.patch; else
 W=/tmp/wt/verify
 # one persistent scratch worktree (removed by `tools/try_seed.sh --cleanup`)
 if [ ! -d $W ]; then /verif/tools/mkwt.sh verify >/dev/null || exit 2; fi
@@ -29,6 +31,7 @@ cargo test --offline $FEAT --test seeded_demo 2>&1 | grep -E "^test result|error
 git diff -- src > /tmp/wt/verify-$id.patch
 git checkout -q -- . ; rm -f tests/seeded_demo.rs
 cd /
+fi
 echo "== [5] checks against the change applied to /repo"
 git -C /repo apply /tmp/wt/verify-$id.patch || { echo "cannot apply to /repo"; exit 3; }
 caught=""
